@@ -815,6 +815,21 @@ class Engine:
                 ex = self.analyze(cal, entry, depth + 1)
                 if ex is not None:
                     exit_sets.append((cal, ex))
+        # `std::for_each(R.begin(), R.end(), [..](elem) { body })` is `for (elem : R) body`: what every run of the body
+        # establishes (its refusals, its calls) holds for each element afterwards. Captured variables are the caller's own
+        # declarations, so the caller's facts are the body's entry facts.
+        each_events = set()
+        if fq == "std::for_each" and len(args) == 3 and depth < self.MAX_DEPTH:
+            lam = fn.term(args[2])
+            lf = self.F.functions.get(lam[1]) if lam[0] == "lambda" else None
+            b0, e0 = fn.term(args[0]), fn.term(args[1])
+            whole = b0[0] == "call" and e0[0] == "call" and b0[1].split("::")[-1] in ("begin", "cbegin") and e0[1].split("::")[-1] in ("end", "cend") \
+                and (b0[2], b0[3]) == (e0[2], e0[3])
+            if lf is not None and whole and lf.cfg and lf.key not in self.stack:
+                lex = self.analyze(lf, frozenset(facts), depth + 1)
+                for f in (lex or ()):
+                    if f[0] == "ev" and f[1] != "each" and f not in facts:
+                        each_events.add(("ev", "each", f))
         # kills caused by the call
         def root_item_local(t):
             return None
@@ -858,7 +873,7 @@ class Engine:
             if not hasattr(self, "_ret_facts"):
                 self._ret_facts = {}
             self._ret_facts[(fn.key, nd["id"])] = rcommon or set()
-        return facts
+        return facts | each_events
 
     def _returned_object_facts(self, fn, ex, cal, obj_t, rest):
         """Exit facts of `cal` about the one local it returns on every returning path, with that local replaced by
